@@ -1,11 +1,10 @@
 import LibfiveTheorems.C11
-#print axioms Libfive.C11.render_all_or_nothing_counterexample
-#print axioms Libfive.C11.render_all_or_nothing_false
-#print axioms Libfive.C11.render_repaired
+#print axioms Libfive.C11.render_all_or_nothing
 #print axioms Libfive.C11.render_uncancelled
-#print axioms Libfive.C11.render_partial_mechanism
+#print axioms Libfive.C11.renderOld_counterexample
+#print axioms Libfive.C11.renderOld_counterexample_index
+#print axioms Libfive.C11.renderOld_not_all_or_nothing
 #print axioms Libfive.C11.last_arriver
 #print axioms Libfive.C11.no_lost_task
 #print axioms Libfive.C11.worker_progress_partial
 #print axioms Libfive.C11.collect_reports_zero
-#print axioms Libfive.C11.render_all_or_nothing_counterexample_index
